@@ -91,6 +91,7 @@ def gen_strings(ctx):
     if ctx.tier == "thorough": cheap = longer
     else: strs += longer
     kws, kwsrc = syn_keywords()
+    KW_LOWER.update(k.lower() for k in list(kws) + KW_FALLBACK + WEAK_KW)
     kwcases = []
     # syn's list (read from its source), the model's list (KW_FALLBACK is a copy of Names.keywords) and the weak keywords
     for k in dict.fromkeys(list(kws) + KW_FALLBACK + WEAK_KW):
@@ -203,6 +204,7 @@ def compare(lines, impl, model):
         if parse(a) != parse(b): dis.append({"input": l, "impl": a, "model": b})
     return dis, unsupported
 
+KW_LOWER = set()
 def pair_requests(ctx, strings, snake_of, pascal_of):
     """colliding pairs/triples: group the names on the model's own sanitize output (implementation's output for
     names outside the model's domain)"""
@@ -214,10 +216,19 @@ def pair_requests(ctx, strings, snake_of, pascal_of):
             if s in table: groups.setdefault(table[s], []).append(s)
         gl = [g for g in groups.values() if len(g) > 1]
         ctx.rng.shuffle(gl)
-        # every group at least once while the budget lasts, small groups first in full
+        # groups that contain a keyword in one of its spellings come first and in full (the second naming pass, the
+        # keyword suffix `_` and the rename decision meet there); then every group once while the budget lasts
+        kw = lambda g: any(x.strip("_-' ").lower() in KW_LOWER for x in g)
+        gl.sort(key=lambda g: 0 if kw(g) else 1)
         n = 0
         for g in gl:
-            if n >= budget: break
+            if n >= budget and not kw(g): break
+            if kw(g) and len(g) <= 8:
+                for i_ in range(len(g)):
+                    for j_ in range(i_ + 1, len(g)):
+                        for kd in kinds: reqs.append("%s %s" % (kd, J([g[i_], g[j_]]))); reqs.append("%s %s" % (kd, J([g[j_], g[i_]])))
+                n += 1
+                continue
             a = g[0]
             others = g[1:] if len(g) <= 4 else ctx.rng.sample(g[1:], 3)
             for b in others:
